@@ -400,8 +400,34 @@ Section Monitors.
   Definition min_acc : option T :=
     fold_left (fun m sx => match m with None => Some (snd sx) | Some y => if flt (snd sx) y then Some (snd sx) else Some y end)
               acc_vals None.
+  (** target: the turn that completes a sample whose mean meets the target must be the last one
+      (checked only while no eviction can have happened: at most [max_pop_size] individuals accepted) *)
+  Fixpoint walk_target (l : list ev) (accs : list (N * T)) (hit_seen : bool) : bool :=
+    match l with
+    | [] => true
+    | e :: t =>
+        match e with
+        | EReturned seed r =>
+            negb hit_seen &&
+            match classify r, ro_target o with
+            | OVal x, Some tb =>
+                let i := id_of_seed seed in
+                let accs' := (accs ++ [(i, x)])%list in
+                let vs := map snd (filter (fun a => N.eqb (fst a) i) accs') in
+                let nids := length (nodup N.eq_dec (map fst accs')) in
+                let h := N.eqb (N.of_nat (length vs)) (ro_ss o) && fle (fmean vs) (of_bits tb) &&
+                         Nat.leb nids max_pop_size in
+                walk_target t accs' h
+            | OVal x, None => walk_target t (accs ++ [(id_of_seed seed, x)])%list false
+            | _, _ => walk_target t accs false
+            end
+        | EStart _ _ _ | EPending => negb hit_seen && walk_target t accs hit_seen
+        | _ => walk_target t accs hit_seen
+        end
+    end.
+
   Definition mon_C04 : bool :=
-    negb hung &&
+    negb hung && walk_target es [] false &&
     no_start_after (fun e => match e with ETerminate => true | _ => false end) es &&
     match final, ro_target o with
     | Some (OROk b _ _ _), Some t =>
